@@ -376,3 +376,9 @@ PROPS['C08']['explanation'] += (' REGENERATED from src/router.rs (Gen/Shapes.v):
 PROPS['C05']['explanation'] += (' REGENERATED from src/node/optimize.rs (Gen/Shortcuts.v): C05_regenerated_shortcut_flags_are_the_model_conditions - update_dynamic_children_shortcut / update_wildcard_children_shortcut, translated into a small condition language, compiled and read over the model nodes, equal dyn_cond / wild_cond of Model/Ops.v on EVERY node (translation plus theorem, not sampling).')
 PROPS['C09']['explanation'] += (' C09_regenerated_prune_tests_are_the_model_tests - the regenerated conjuncts of is_empty / is_compressible, compiled and read over the model nodes, equal the model tests on every node.')
 PROPS['C03']['explanation'] += (' REGENERATED from src/node/search.rs (Gen/Rankings.v): C03_regenerated_ranking_is_the_documented_priority - the closure of each of the six best_match.map_or(..) sites, read over the model route infos, is `better` of the documented walk for every pair of infos; no other use of best_match.')
+_loops = (' REGENERATED from src/node/search.rs (Gen/Loops.v): %s_search_loops_have_the_model_shapes - each of the eight parameter searches has exactly the statements, in the order, of one loop shape of Model/SearchC.v (grow in its three modes, dyn_segment), over the child list of its kind, the constraint check exactly in the constrained ones, no further continue / break / return.')
+for _k in ('C01', 'C02', 'C12'):
+    PROPS[_k]['explanation'] += _loops % _k
+PROPS['C02']['explanation'] += (' REGENERATED from src/node/{search,delete,insert,find}.rs (Gen/Prefixes.v): C02_regenerated_prefix_tests_are_the_model_predicates - the tests on literal prefixes, read with the meaning of the Rust iterator expressions over byte lists, are starts_with (and the continuing slice is the rest it returns), same_first and lcp of the model, for all byte strings.')
+PROPS['C14']['explanation'] += (' REGENERATED from src/parser.rs (Gen/ParserErrors.v): C14_parser_error_sites_are_the_models - the seventeen TemplateError construction sites function by function, all thirteen variants, no other.')
+PROPS['C08']['explanation'] += (' REGENERATED from src/node/{insert,find,delete}.rs (Gen/KindOps.v): C08_per_kind_functions_use_their_own_list_and_key_equality - each of the 18 per-kind functions touches only the child list of its kind and recognises a child by name (and constraint where the kind has one); over the model keys that test is keqb.')
